@@ -3,7 +3,7 @@ Leg D: spec/Archive/Archive.tla - TLC saves/loads every value of a bounded type 
        prefix of its archive) and reads every boundary-mutated archive of <=3 chunks with every sequence of
        chunk operations, under the guard the property demands (ptr + 4 + size <= Len(buffer)).
 Leg B: harness/archive/archive_drv.cpp drives cppcms::archive / archive_traits<T> / serialization_traits<T> for
-       36 C++ types (and cache_interface / session_interface store_data, fetch_data for the user classes); TLC (ArchiveTrace.tla) recomputes Save(type, value) and Load(type, bytes) for every recorded
+       46 C++ types (multimap / multiset with runs of equivalent keys included) (and cache_interface / session_interface store_data, fetch_data for the user classes); TLC (ArchiveTrace.tla) recomputes Save(type, value) and Load(type, bytes) for every recorded
        call and judges every chunk-level read of every truncation / length-field mutation.
 """
 import os, json
@@ -29,6 +29,7 @@ def describe(c, d, line):
         "roundtrip-refused": "the archive of a saved value was refused",
         "roundtrip-differs": "loaded value differs from the saved one",
         "roundtrip-spec": "round trip equal but the specification's Load disagrees (wire format)",
+        "roundtrip-resave": "saving the loaded value again gives different bytes",
         "load-wrong-value": "well-formed archive loaded to a value other than the one it encodes",
         "load-refused-valid": "a well-formed archive was refused",
         "read-wrong-size": "chunk size differs from the length field",
@@ -46,7 +47,9 @@ def run(ctx):
     ctx.assumptions += [
         "i64 values are logged as 8 little-endian two's-complement bytes computed arithmetically by the driver; double and json::value are opaque tokens (8 bytes / compact text)",
         "lengths >= 2^31 are abstracted to one value BIG in the specification (buffers are far smaller)",
-        "bool has no archive_traits in cppcms (not in the universe); multiset/multimap, intrusive_ptr, hold_ptr not driven",
+        "bool has no archive_traits in cppcms (not in the universe); intrusive_ptr, hold_ptr not driven",
+        "multimap / multiset are sequences in key order with insertion order among equivalent keys (C++11 23.2.4); Load(Save(v)) is compared element by element and the re-saved bytes must be identical; "
+        "for mutated archives whose elements are not in canonical order the order among equivalent keys is not demanded",
         "the driver keeps a shadow cursor (archive::ptr_ is private); eof() is the only direct observation of the cursor",
         "hooks flavour (no ASan): out-of-archive reads are judged from (ptr,size,buflen) and the returned bytes, not from a sanitizer",
     ]
